@@ -112,7 +112,9 @@ impl GraphQLRequest {
 
 impl From<GraphQLQuery> for GraphQLRequest {
     fn from(query: GraphQLQuery) -> Self {
-        let mut request = async_graphql::Request::new(query.query);
+        // a `GraphQLQuery` is decoded from the query string of a GET request,
+        // which must not execute mutations
+        let mut request = async_graphql::Request::new(query.query).disallow_mutations();
 
         if let Some(operation_name) = query.operation_name {
             request = request.operation_name(operation_name);
